@@ -13,7 +13,6 @@ import (
 	"github.com/anishathalye/porcupine"
 	"github.com/protobom/protobom/pkg/formats"
 	"github.com/protobom/protobom/pkg/native"
-	"github.com/protobom/protobom/pkg/native/serializers"
 	"github.com/protobom/protobom/pkg/reader"
 	"github.com/protobom/protobom/pkg/sbom"
 	"github.com/protobom/protobom/pkg/storage"
@@ -83,31 +82,11 @@ func fakeWriteOutcome(tag string, d *sbom.Document, indent int) string {
 // ---- generation ----
 
 func serialisableDoc(r *rand.Rand, tag string, maxNodes int) *sbom.Document {
-	g := gen.New(r.Int63(), gen.Profile{Serialisable: true, MaxNodes: maxNodes, Tag: tag})
-	return g.Document("https://example.com/verif/" + tag + "#DOCUMENT")
+	return gen.SerialisableDoc(r, tag, maxNodes)
 }
 
-// renderWith serialises with a fresh driver object (the reader/writer/formats packages are not touched).
 func renderWith(format string, d *sbom.Document, indent int) ([]byte, error) {
-	var s native.Serializer
-	f := formats.Format(format)
-	switch {
-	case format == string(formats.SPDX23JSON):
-		s = serializers.NewSPDX23()
-	case f.Type() == formats.CDXFORMAT:
-		s = serializers.NewCDX(f.Version(), formats.JSON)
-	default:
-		return nil, fmt.Errorf("no built-in serializer for %s", format)
-	}
-	nd, err := s.Serialize(d, &native.SerializeOptions{}, nil)
-	if err != nil {
-		return nil, err
-	}
-	var buf bytes.Buffer
-	if err := s.Render(nd, &buf, &native.RenderOptions{Indent: indent}, nil); err != nil {
-		return nil, err
-	}
-	return buf.Bytes(), nil
+	return gen.RenderWith(format, d, indent)
 }
 
 const crossLineTV = "# generated tag-value fragment\nDataLicense: CC0-1.0\nSPDXVersion:\n  \"SPDX-2.3\"\nSPDXID: SPDXRef-DOCUMENT\n"
